@@ -364,7 +364,7 @@ PROPS["C07"] = {
 
 PROPS["C12"] = {
     "modules": ["SlogModel.Props.C12"],
-    "components": [("pipe-c12", 1500, 30000)],
+    "components": [("pipe-c12", 1500, 30000), ("agent-c12", 40, 400), ("route", 1500, 30000)],
     "rule": "one case = one long-lived real record path (pooled records and backing buffers, released after every record) "
             "processing 9 lines of mixed size and shape; every line is processed again on a freshly built path; both outcomes must "
             "be identical (unless the program samples by percentage) and equal to Pipe.process; distinct by ops; all non-trivial",
